@@ -651,6 +651,13 @@ HttpRequest::checkEntityFraming() const
     if (header.unsupportedTe())
         return Http::scNotImplemented;
 
+    // RFC 9112 section 6.1: an HTTP/1.0 message with Transfer-Encoding has faulty
+    // framing (an HTTP/1.0 sender or relay does not implement Transfer-Encoding
+    // and may have framed the message by Content-Length), even if a
+    // Content-Length is present
+    if (http_ver <= Http::ProtocolVersion(1,0) && header.has(Http::HdrType::TRANSFER_ENCODING))
+        return Http::scBadRequest;
+
     // RFC 7230 section 3.3.3 #3 paragraph 3:
     // Transfer-Encoding overrides Content-Length
     if (header.chunked())
